@@ -394,6 +394,8 @@ case_reboot = st.fixed_dictionaries({
     "cfg": cfg_set,
     "vars": st.lists(var, min_size=1, max_size=4, unique_by=lambda x: x["name"]),
     "reboot_after": st.sampled_from([1, 9, 11, 60, 99, 101, 5000]),
+    # later sets of variables that already exist (index into vars), each after a gap: every set restarts the expiry
+    "resets": st.lists(st.tuples(st.integers(0, 3), value, st.sampled_from([1, 20, 200, 4000])).map(list), max_size=3),
 })
 
 
@@ -421,6 +423,16 @@ def check_reboot(case):
             mv.set_machine_var(v_["name"], copy.deepcopy(v_["value"]))
             # a variable that keeps its value is not re-written: the model keeps the first expiry base in that case
             model[v_["name"]] = {"value": v_["value"], "persist": v_["persist"],
+                                 "expires": (t + v_["expire_secs"]) if v_["expire_secs"] else None}
+        for idx, val, after in case.get("resets", []):
+            v_ = case["vars"][idx % len(case["vars"])]
+            rig.advance(after)
+            t += after
+            mv.set_machine_var(v_["name"], copy.deepcopy(val))
+            classes.add("variable set again" + (" after its previous expiry" if v_["expire_secs"] and
+                                                 model[v_["name"]]["expires"] is not None and
+                                                 model[v_["name"]]["expires"] < t else ""))
+            model[v_["name"]] = {"value": val, "persist": v_["persist"],
                                  "expires": (t + v_["expire_secs"]) if v_["expire_secs"] else None}
         rig.run_ready()
         t_end = t
